@@ -10,7 +10,8 @@ is compared with the model's (`mergeseq`; `mergeall` = going on after rejected m
 file-wide chi).  Oracle on the real objects: union of labels, payload identity with the source, order
 independence of success and content, conflict => rejected, rejected => target unchanged (snapshot before /
 after), per step when the sequence goes on after a rejection; every conflict kind x position of the
-conflicting nuclide; the working-directory flow on scratch copies of the fixture files.  `wf`: the
+conflicting nuclide; libraries with zero / one nuclide (hand-over of group structure and file metadata:
+numGroups, metadata blocks, file names); the working-directory flow on scratch copies of the fixture files.  `wf`: the
 theorems' hypothesis Lib.WF evaluated by the model on every library merged.
 Tie (2) macros: computeMacroscopicGroupConstants (also with multLib) / energy deposition / generation
 constants / MacroscopicCrossSectionCreator piece by piece AND as one model call (`creator`: densities
@@ -1064,8 +1065,8 @@ def run_merge(ctx):
     for items, tag in directed_scenarios():
         one(items, tag, merge_orders(len(items), rng, 24))
     # (b2) boundary sizes of the nuclide set (zero / one nuclide with group structure and metadata), every order
-    for k, (items, tag) in enumerate(boundary_scenarios(rng, n_random=ctx.pick(1, 6))):
-        one(items, tag, merge_orders(len(items), rng, ctx.pick(6, 24)))
+    for k, (items, tag) in enumerate(boundary_scenarios(rng, n_random=ctx.pick(1, 3))):
+        one(items, tag, merge_orders(len(items), rng, ctx.pick(6, 12)))
         ctx.count("boundary-size scenario: " + tag.split("-")[1])
     # (c) generated scenarios, every order
     ns = ctx.pick(120, 2000)
@@ -2086,6 +2087,165 @@ def run_reuse(ctx):
             ctx.count("macro request (reuse): " + rq.split(" ")[0])
 
 
+# ----------------------------------------------------------------------------- function-level correspondence of the merge layer
+def run_functions(ctx):
+    """the callees of IsotxsLibrary.merge ONE BY ONE against the model definition each transcribes, same inputs on both
+    sides: createImmutableProperty's setter (Prop'.set, exhaustive), NuclideMetadata.merge (Meta.merge),
+    NuclideXSMetadata.merge incl. file-wide chi (FileMeta.mergeChi), XSCollection.merge (Coll.merge), XSNuclide.merge
+    (Nuc.merge, post-state of the target nuclide also when it raises)."""
+    from armi.nuclearDataIO import nuclearFileMetadata as nfm
+    from armi.nuclearDataIO import xsCollections, xsLibraries, xsNuclides
+    rng = ctx.rng
+    it = Intern()
+    attrs = coll_attrs()
+    req, impl, cases = [], [], []
+
+    def outcome(f):
+        try:
+            return f()
+        except Exception:  # noqa
+            return None
+
+    # --- write-once properties: every (state, value) pair, every property
+    va, vb = [1.0, 2.0], [1.0, 2.5]
+    enc_v = {"N": "N", "a": str(it.val(np.array(va))), "b": str(it.val(np.array(vb))), "a2": str(it.val(np.array(va)))}
+    for pname in PROPS:
+        for cur in ("_", "N", "a", "b"):
+            for v in ("N", "a", "b", "a2"):
+                lib = xsLibraries.IsotxsLibrary()
+                if cur != "_":
+                    setattr(lib, pname, None if cur == "N" else np.array(va if cur == "a" else vb))
+                val = None if v == "N" else np.array(va if v in ("a", "a2") else vb)
+                ok = outcome(lambda: (setattr(lib, pname, val), True)[1])
+                st = read_prop(lib, pname)
+                req.append(f"propset {cur if cur in ('_', 'N') else enc_v[cur]} {enc_v[v]}")
+                impl.append("reject" if not ok else (st if isinstance(st, str) else str(it.val(st))))
+                cases.append({"function": "createImmutableProperty setter", "property": pname, "state": cur, "value": v})
+                ctx.case(("propset", pname, cur, v))
+                ctx.count("function level: write-once setter " + ("accepted" if ok else "rejected"))
+
+    # --- nuclide / library metadata
+    pool = {"nuclideId": ["A", "B"], "amass": [1.5, 2.5], "ords": [[1, 1], [1, 2]], "flag": [0, 1], "arr": [[0.5, 0.25], [0.5, 0.75]]}
+
+    def gen_meta(keys, p=0.6):
+        return {k: rng.choice(pool[k]) for k in keys if rng.random() < p}
+
+    def fill(md, d):
+        for k, v in d.items():
+            md[k] = to_payload(k, v)
+        return md
+
+    for _ in range(ctx.pick(150, 1500)):
+        keys = rng.sample(sorted(pool), rng.randint(1, 4))
+        da = gen_meta(keys, 0.8) if rng.random() < 0.85 else {}
+        db = {k: (da[k] if (k in da and rng.random() < 0.8) else rng.choice(pool[k])) for k in keys if rng.random() < 0.7} if rng.random() < 0.85 else {}
+        a, b = fill(nfm.NuclideMetadata(), da), fill(nfm.NuclideMetadata(), db)
+        res = outcome(lambda: a.merge(b, "x", "y", "ISOTXS", AttributeError))
+        req.append(f"metamerge {enc(snap_meta(it, a))} {enc(snap_meta(it, b))}")
+        impl.append("reject" if res is None else enc(snap_meta(it, res)))
+        cases.append({"function": "NuclideMetadata.merge", "self": da, "other": db})
+        ctx.case(("metamerge", json.dumps([da, db], sort_keys=True)), nontrivial=bool(da and db))
+        ctx.count("function level: NuclideMetadata.merge " + ("rejected" if res is None else "one side empty" if not (da and db) else "agree"))
+    for _ in range(ctx.pick(150, 1500)):
+        keys = rng.sample(sorted(pool), rng.randint(0, 3))
+
+        def lib_meta():
+            d = gen_meta(keys, 0.8)
+            if rng.random() < 0.5:
+                d["libraryLabel"] = rng.choice(["", "", "libX", "libY"])
+            if rng.random() < 0.35:
+                d["chi"] = rng.choice([[0.5, 0.5], [0.75, 0.25]])
+                d["fileWideChiFlag"] = 1
+            elif rng.random() < 0.5:
+                d["fileWideChiFlag"] = 0
+            return d if rng.random() < 0.85 else {}
+        da = lib_meta()
+        db = lib_meta()
+        if da and db and rng.random() < 0.7:    # mostly agreeing on the ordinary keys
+            for k in keys:
+                if k in da:
+                    db[k] = da[k]
+                else:
+                    db.pop(k, None)
+        a, b = fill(nfm.NuclideXSMetadata(), da), fill(nfm.NuclideXSMetadata(), db)
+        a.fileNames, b.fileNames = ["fa"], ["fb", "fc"]
+        ca, cb = xsLibraries.IsotxsLibrary(), xsLibraries.IsotxsLibrary()
+        sa = (snap_meta(it, a), tuple(sorted(it.file(f) for f in a.fileNames)))
+        sb = (snap_meta(it, b), tuple(sorted(it.file(f) for f in b.fileNames)))
+        res = outcome(lambda: a.merge(b, ca, cb, "ISOTXS", OSError))
+        req.append(f"filemetamerge {enc(sa)} {enc(sb)}")
+        impl.append("reject" if res is None else enc((snap_meta(it, res), tuple(sorted(it.file(f) for f in res.fileNames)))))
+        cases.append({"function": "NuclideXSMetadata.merge", "self": da, "other": db})
+        ctx.case(("filemetamerge", json.dumps([da, db], sort_keys=True)), nontrivial=bool(da and db))
+        ctx.count("function level: NuclideXSMetadata.merge " + ("rejected" if res is None else "one side empty" if not (da and db)
+                                                                  else "drops a file-wide chi" if ("chi" in da or "chi" in db) else "agree"))
+
+    # --- collections and nuclides
+    def gen_coll(ng, p):
+        c = gen_collection(rng, ng) if rng.random() < p else {}
+        c.pop("higherOrderScatter", None)
+        return c
+
+    def fill_coll(coll, d):
+        for k, v in d.items():
+            setattr(coll, k, to_payload(k, v))
+        return coll
+
+    for _ in range(ctx.pick(120, 1200)):
+        ng = rng.choice([1, 2, 3])
+        da, db = gen_coll(ng, 0.6), gen_coll(ng, 0.6)
+        a, b = fill_coll(xsCollections.XSCollection(parent=None), da), fill_coll(xsCollections.XSCollection(parent=None), db)
+        sa, sb = snap_coll(it, a, attrs), snap_coll(it, b, attrs)
+        full = lambda t: t if t else tuple("N" for _ in attrs)   # noqa
+        ok = outcome(lambda: (a.merge(b), True)[1])
+        req.append(f"collmerge {enc(full(sa))} {enc(full(sb))}")
+        impl.append("reject" if not ok else enc(snap_coll(it, a, attrs)) if snap_coll(it, a, attrs) else "[]")
+        cases.append({"function": "XSCollection.merge", "self": da, "other": db})
+        ctx.case(("collmerge", json.dumps([da, db], sort_keys=True)), nontrivial=bool(da or db))
+        ctx.count("function level: XSCollection.merge " + ("rejected" if not ok else "accepted"))
+
+    def gen_nuc(ng, ngam, donor=None):
+        n = {}
+        if rng.random() < 0.6:
+            n["isotxsMetadata"] = dict(donor["isotxsMetadata"]) if donor and "isotxsMetadata" in donor and rng.random() < 0.7 else gen_nuc_meta(rng, "iso")
+            if rng.random() < 0.8:
+                n["micros"] = gen_coll(ng, 1.0)
+        if rng.random() < 0.5:
+            n["gamisoMetadata"] = dict(donor["gamisoMetadata"]) if donor and "gamisoMetadata" in donor and rng.random() < 0.7 else gen_nuc_meta(rng, "gam")
+            if rng.random() < 0.8:
+                n["gammaXS"] = gen_coll(ngam, 1.0)
+        if rng.random() < 0.5:
+            n["pmatrxMetadata"] = dict(donor["pmatrxMetadata"]) if donor and "pmatrxMetadata" in donor and rng.random() < 0.7 else gen_nuc_meta(rng, "pm")
+            n["attrs"] = {a: [dy(rng, 0, 4) for _ in range(ng)] for a in ATTRS[:3] if rng.random() < 0.5}
+        return n
+
+    def snap_nuc(n):
+        return (it.label("X1AA"), snap_meta(it, n.isotxsMetadata), snap_meta(it, n.gamisoMetadata), snap_meta(it, n.pmatrxMetadata),
+                snap_coll(it, n.micros, attrs), snap_coll(it, n.gammaXS, attrs),
+                tuple("N" if getattr(n, a) is None else it.val(getattr(n, a)) for a in ATTRS))
+
+    for _ in range(ctx.pick(200, 2000)):
+        ng, ngam = rng.choice([1, 2, 3]), rng.choice([1, 2])
+        da = gen_nuc(ng, ngam)
+        db = gen_nuc(ng, ngam, donor=da)
+        la = build({"nucs": [["X1AA", da]]})
+        lb = build({"nucs": [["X1AA", db]]})
+        a, b = la["X1AA"], lb["X1AA"]
+        sa, sb = snap_nuc(a), snap_nuc(b)
+        ok = outcome(lambda: (a.merge(b), True)[1])
+        req.append(f"nucmerge {enc(sa)} {enc(sb)}")
+        impl.append(("T " if ok else "F ") + enc(snap_nuc(a)))
+        cases.append({"function": "XSNuclide.merge", "self": da, "other": db})
+        ctx.case(("nucmerge", json.dumps([da, db], sort_keys=True)), nontrivial=bool(da and db))
+        ctx.count("function level: XSNuclide.merge " + ("accepted" if ok else "rejected, target nuclide " + ("unchanged" if snap_nuc(a) == sa else "partly merged")))
+    model = lean_run("XsLib", req)
+    if any(m == "bad-op" for m in model):
+        from harness.common import Infra
+        raise Infra("XsLib driver refused a function-level request: " + str([r[:200] for r, m in zip(req, model) if m == "bad-op"][:2]))
+    ctx.compare("Model/XsLib.lean definitions vs the callees of IsotxsLibrary.merge, function by function", cases, model, impl)
+    ctx.samples.append({"request": req[-1][:300], "model": model[-1][:300], "impl": impl[-1][:300]})
+
+
 # ----------------------------------------------------------------------------- merging the files of a working directory
 def workdir_flow(case):
     """run mergeXSLibrariesInWorkingDirectory on a scratch directory holding case['files'] (fixture -> name) and decoys;
@@ -2432,18 +2592,23 @@ def run(ctx):
         run_reuse(ctx)
         run_chi(ctx)
         run_workdir(ctx)
+        run_functions(ctx)
     finally:
         logging.disable(logging.NOTSET)
     ctx.rule = ("merge: seeded scenarios of 2-5 libraries (iso/gamiso/pmatrx-like and pre-merged mixes, 1-33 groups, 1-4 nuclides "
                 "per suffix, optional reactions, sparse scatter, higher-order scatter / n-order production payloads, 8 kinds of "
                 "injected conflict) + the six fixture libraries, every merge order (<= 24); every nuclide-level conflict kind x "
-                "position (first/middle/last) of the conflicting nuclide; sequences that go on after rejected merges; one case = "
+                "position (first/middle/last) of the conflicting nuclide; boundary sizes of the nuclide set (libraries with zero / one "
+                "nuclide, built so or purged, that still carry group structure and file metadata: as other, as target, both, in "
+                "sequences of 3-5, consistent or conflicting); sequences that go on after rejected merges; one case = "
                 "one ordered merge sequence, distinct by the canonical source snapshots, non-trivial when >= 2 libraries (go-on: "
                 "when an accepted merge follows a rejected one). macros: seeded libraries x compositions (zero densities, missing "
                 "nuclides, missing reactions); one case = one composition on one library, non-trivial when some density is "
                 "non-zero. creator: one createMacrosFromMicros call (neutron / gamma libType, nucNames given or not, minimum "
                 "density, scatter built or not) or one computeMacroscopicGroupConstants call with a multiplier library. "
-                "reuse: one creator over 2-5 blocks with alternating XS IDs on merged two/three-ID libraries, both block orders. "
+                "reuse: one creator over 2-5 blocks with alternating XS IDs on merged two/three-ID libraries, both block orders; "
+                "createMacrosOnBlocklist over block lists with different nuclide sets (first smallest / largest, disjoint, nested, "
+                "identical), nucNames defaulted or given, neutron or gamma. "
                 "chi: 0-3 file-wide-chi libraries in every order, oracle + mergeAllChi. workdir: scratch directories of fixture "
                 "files (suffixes, decoys, gamma on/off) and generated file-name lists.")
 
@@ -2475,6 +2640,28 @@ def search(ctx, disagreements, broken):
                     subitems = [items[i] for i in sub]
                     oracle_scenario(ctx, it, attrs, subitems, c.get("tag", "?"), None,
                                     list(itertools.permutations(range(size))), sink)
+        elif isinstance(c, dict) and str(c.get("function", "")) in ("XSNuclide.merge", "XSCollection.merge", "NuclideMetadata.merge",
+                                                                      "NuclideXSMetadata.merge", "createImmutableProperty setter"):
+            # lift the function-level inputs into two libraries and judge the property's clauses on their merge, both orders
+            fn = c["function"]
+            if fn == "XSNuclide.merge":
+                pair = [{"nucs": [["X1AA", c["self"]]]}, {"nucs": [["X1AA", c["other"]]]}]
+            elif fn == "XSCollection.merge":
+                pair = [{"nucs": [["X1AA", {"micros": c["self"]}]]}, {"nucs": [["X1AA", {"micros": c["other"]}]]}]
+            elif fn == "NuclideMetadata.merge":
+                pair = [{"nucs": [["X1AA", {"isotxsMetadata": c["self"]}]]}, {"nucs": [["X1AA", {"isotxsMetadata": c["other"]}]]}]
+            elif fn == "NuclideXSMetadata.merge":
+                pair = [{"isotxsMetadata": {"data": c["self"], "files": ["fa"]}, "nucs": []},
+                        {"isotxsMetadata": {"data": c["other"], "files": ["fb"]}, "nucs": []}]
+            else:
+                vals = {"N": None, "a": [1.0, 2.0], "a2": [1.0, 2.0], "b": [1.0, 2.5]}
+                pair = [{"props": ({} if c["state"] == "_" else {c["property"]: vals[c["state"]]}), "nucs": []},
+                        {"props": {c["property"]: vals[c["value"]]}, "nucs": []}]
+            if any("chi" in (x.get("isotxsMetadata", {}).get("data", {})) for x in pair):
+                sub = type(ctx)(ctx.prop, "quick", ctx.seed)
+                chi_oracle(sub, build, pair, [(0, 1), (1, 0)], sink, roundtrip=False)
+            else:
+                oracle_scenario(ctx, it, attrs, pair, "function-level", None, [(0, 1), (1, 0)], sink)
         elif isinstance(c, dict) and "chi_libs" in c:
             names = c["chi_libs"]
             k = json.dumps(sorted(json.dumps(x, sort_keys=True, default=str) for x in names))
